@@ -136,7 +136,13 @@ func c02Scenario(p c02Params) *explore.Scenario {
 			if p.Glob {
 				ncmd = 1
 			}
-			viol = c02Classify(hooks, ncmd) + viol
+			cl := c02Classify(hooks, ncmd)
+			if cl == "" && hooks != nil && !hooksPresent(hooks) && ncmd > 1 && strings.Contains(viol, "got 0 of") && p.Stall == 0 {
+				// the observed functions were renamed: fall back to the outside view of the known
+				// hand-shake race (a whole later file missing in a multi-command session)
+				cl = "[session-shutdown-began-before-all-commands-were-received] "
+			}
+			viol = cl + viol
 		}
 		return out, viol, res
 	}
